@@ -117,7 +117,8 @@ theorem comment_line_shape (cfg : Cfg) (q : Req) :
     unfold formatComment tail
     simp only [ho, if_true, List.append_assoc, List.cons_append, List.nil_append]
 
-/-- the line always ends in a newline; when id, text, IP and time contain none it is the only one. -/
+/-- the line always ends in a newline; when id, text, IP and time contain none it is the only one
+(FormatCommentString itself writes the text as it is). -/
 theorem comment_line_one_newline (cfg : Cfg) (q : Req) :
     (∃ body, formatComment cfg q = body ++ [10]) ∧
     (10 ∉ q.user → 10 ∉ q.text → 10 ∉ q.ip → 10 ∉ q.time → (formatComment cfg q).count 10 = 1) := by
@@ -126,10 +127,10 @@ theorem comment_line_one_newline (cfg : Cfg) (q : Req) :
   rw [formatComment_eq_body, List.count_append, List.count_eq_zero.2 (lineBody_no_newline cfg q hu ht hi htm)]
   rfl
 
-/-- the code writes the text as it is: a text with a newline produces additional lines (documented, see the
-design notes: a commenter can forge a complete second comment line). -/
-theorem comment_text_newline_injects :
-    ∃ cfg q, 10 ∉ q.user ∧ 10 ∉ q.ip ∧ 10 ∉ q.time ∧ (formatComment cfg q).count 10 = 2 :=
+/-- before b012a03 Recommend passed every text on: this text made the file grow by two lines (key
+`append:newline-injection`); kept as the witness of why the text test below is needed. -/
+theorem line_break_before_fix :
+    ∃ cfg q, 10 ∉ q.user ∧ 10 ∉ q.ip ∧ 10 ∉ q.time ∧ hasLineBreak q.text = true ∧ (formatComment cfg q).count 10 = 2 :=
   ⟨⟨0, false, true⟩, ⟨[65, 49, 0, 0, 0, 0, 0, 0, 0, 0, 0, 0, 0], [], 3, [97, 10, 98], [], [48], 1⟩, by decide⟩
 
 /-- fixed width: when id and text fit, id + text + blanks fill exactly the budget (62 columns, 47 with the IP
@@ -154,7 +155,7 @@ accepted (the remaining theorems describe that case). -/
 theorem comment_atomic (find : Bytes → Nat → Bytes → Option Nat) (cfg : Cfg) (st : St) (q : Req)
     (hp : st.dir.present = true) :
     (recommend find cfg st q).1 = st ∨ ∃ line idx, (recommend find cfg st q).2 = .ok line idx := by
-  rcases recommend_cases find cfg st q hp with ⟨e, _, h⟩ | ⟨k, old, _, _, _, _, _, h⟩
+  rcases recommend_cases find cfg st q hp with ⟨e, _, h⟩ | ⟨k, old, _, _, _, _, _, _, h⟩
   · left; rw [h]
   · right; rw [h]; exact ⟨_, _, rfl⟩
 
@@ -170,7 +171,7 @@ theorem comment_appends (find : Bytes → Nat → Bytes → Option Nat) (cfg : C
       fileGet st'.files (cstr (field (record st.dir.bytes dirSz (idx - 1)) offFilename lenFilename)) = some (old ++ line) ∧
       ∀ m, m ≠ cstr (field (record st.dir.bytes dirSz (idx - 1)) offFilename lenFilename) →
         fileGet st'.files m = fileGet st.files m := by
-  rcases recommend_cases find cfg st q hp with ⟨e, he, h'⟩ | ⟨k, old, hle, _, hne, _, hf, h'⟩
+  rcases recommend_cases find cfg st q hp with ⟨e, he, h'⟩ | ⟨k, old, hle, _, hne, _, _, hf, h'⟩
   · rw [h'] at h; injection h with _ h2; exact absurd h2 (he _ _)
   · rw [h'] at h
     injection h with h1 h2
@@ -181,6 +182,36 @@ theorem comment_appends (find : Bytes → Nat → Bytes → Option Nat) (cfg : C
     refine ⟨rfl, by omega, hle, hne, old, hf, ?_, ?_⟩
     · exact fileGet_fileSet_same _ _ _ _ hf
     · intro m hm; exact fileGet_fileSet_other _ _ _ _ hm
+
+/-- **comment_one_line**: an accepted comment is exactly ONE line, for every text: the text of an accepted
+request contains neither `\n` nor `\r` (Recommend refuses those, see `comment_refuses_line_break`), so with an
+id, IP and clock string free of newlines the appended bytes contain exactly one newline, the final one. -/
+theorem comment_one_line (find : Bytes → Nat → Bytes → Option Nat) (cfg : Cfg) (st st' : St) (q : Req)
+    (line : Bytes) (idx : Nat) (hp : st.dir.present = true)
+    (h : recommend find cfg st q = (st', .ok line idx)) :
+    10 ∉ q.text ∧ 13 ∉ q.text ∧ (∃ body, line = body ++ [10]) ∧
+    (10 ∉ q.user → 10 ∉ q.ip → 10 ∉ q.time → line.count 10 = 1) := by
+  rcases recommend_cases find cfg st q hp with ⟨e, he, h'⟩ | ⟨k, old, _, _, _, _, hb, _, h'⟩
+  · rw [h'] at h; injection h with _ h2; exact absurd h2 (he _ _)
+  · rw [h'] at h
+    injection h with _ h2
+    injection h2 with h3 _
+    subst h3
+    obtain ⟨h10, h13⟩ := not_mem_of_hasLineBreak_false hb
+    exact ⟨h10, h13, (comment_line_one_newline cfg q).1, fun hu hi ht => (comment_line_one_newline cfg q).2 hu h10 hi ht⟩
+
+/-- **comment_refuses_line_break**: a text with `\n` or `\r` is never accepted and leaves index and files as
+they were (whatever else is wrong with the request). -/
+theorem comment_refuses_line_break (find : Bytes → Nat → Bytes → Option Nat) (cfg : Cfg) (st : St) (q : Req)
+    (hp : st.dir.present = true) (hb : 10 ∈ q.text ∨ 13 ∈ q.text) :
+    (recommend find cfg st q).1 = st ∧ ∀ line idx, (recommend find cfg st q).2 ≠ .ok line idx := by
+  rcases recommend_cases find cfg st q hp with ⟨e, he, h'⟩ | ⟨k, old, _, _, _, _, hnb, _, h'⟩
+  · rw [h']; exact ⟨rfl, he⟩
+  · exfalso
+    obtain ⟨h10, h13⟩ := not_mem_of_hasLineBreak_false hnb
+    rcases hb with hb | hb
+    · exact h10 hb
+    · exact h13 hb
 
 /-- **comment_index_frame**: an accepted request keeps the length of the index; bytes of every other entry
 (and of a torn tail) are unchanged; inside the addressed entry only the four bytes of `Modified` (which then
@@ -195,7 +226,7 @@ theorem comment_index_frame (find : Bytes → Nat → Bytes → Option Nat) (cfg
     (q.mtime > 0 →
       st'.dir.bytes[(idx - 1) * dirSz + 33]? = some (scoreAfter q.ctype (st.dir.bytes.getD ((idx - 1) * dirSz + 33) 0)) ∧
       ∀ j, j < 4 → st'.dir.bytes[(idx - 1) * dirSz + 28 + j]? = (le32 q.mtime.toNat)[j]?) := by
-  rcases recommend_cases find cfg st q hp with ⟨e, he, h'⟩ | ⟨k, old, hle, _, _, _, _, h'⟩
+  rcases recommend_cases find cfg st q hp with ⟨e, he, h'⟩ | ⟨k, old, hle, _, _, _, _, _, h'⟩
   · rw [h'] at h; injection h with _ h2; exact absurd h2 (he _ _)
   · rw [h'] at h
     injection h with h1 h2
@@ -254,7 +285,7 @@ theorem comment_refusals (find : Bytes → Nat → Bytes → Option Nat) (cfg : 
     rw [if_neg ht, hg]
     simp only []
     rw [if_pos (key idx r hg)]
-  rcases recommend_cases find cfg st q hp with ⟨e, he, h'⟩ | ⟨k, old, hle, hk, hne, hnr, _, h'⟩
+  rcases recommend_cases find cfg st q hp with ⟨e, he, h'⟩ | ⟨k, old, hle, hk, hne, hnr, _, _, h'⟩
   · exact ⟨by rw [h'], fun l i => by rw [h']; exact he l i, third⟩
   · exfalso
     -- an accepted request would have passed the refusal test on the entry GetRecord returned
@@ -322,6 +353,10 @@ example : recommend findLinear ⟨0, false, true⟩ (exSt 76 0 0) (exReq 77 1) =
 example : (recommend findLinear ⟨0, false, true⟩ (exSt 77 0 0) (exReq 76 1)).2 =
     .ok (formatComment ⟨0, false, true⟩ (exReq 76 1)) 1 := by decide +kernel
 
+/-- a carriage return is a line break too -/
+example : recommend findLinear ⟨0, false, true⟩ (exSt 77 0 0) { exReq 77 1 with text := [97, 13] } = (exSt 77 0 0, .badText) := by
+  decide +kernel
+
 /-- the witness of the finding repaired by 0448f6d (`refusal:link-record`): the entry is a link entry, GetRecord
 returns it for the request `M.…` (names are compared from the third byte on), the first byte of the REQUESTED
 name — what the code tested before the fix — is not `L`; the fixed test refuses it. -/
@@ -362,7 +397,7 @@ theorem comments_sequence (find : Bytes → Nat → Bytes → Option Nat) (ops :
   | cons op ops ih =>
     obtain ⟨cfg, q⟩ := op
     simp only [run]
-    rcases recommend_cases find cfg st q hp with ⟨e, he, h'⟩ | ⟨k, old, hle, _, _, _, hf, h'⟩
+    rcases recommend_cases find cfg st q hp with ⟨e, he, h'⟩ | ⟨k, old, hle, _, _, _, _, hf, h'⟩
     · -- failed: nothing changed
       have h1 : (recommend find cfg st q).1 = st := by rw [h']
       have h2 : ∀ n, appended find st ((cfg, q) :: ops) n = appended find st ops n := by
